@@ -120,33 +120,35 @@ theorem describe_sizeReal :
       | (rename_i hl _ ih; exact ih (itemNM_tupTup _ _ _ hl hnm) r hr m hm)
       | (rename_i ih; exact ih hnm r (by simpa using hr) m hm)
       | skip)
-  case case43 => rename_i _ r hr m hm; simp [descAll] at hr; subst hr; cases hm
-  case case44 =>
-    rename_i ih hI r hr m hm
-    simp only [descAll] at hr
-    obtain ⟨x, y, hx, hy, rfl⟩ := Res.append_eq_ok hr
-    simp only [Res.ok.injEq] at hx; subst hx
-    rcases List.mem_append.mp hm with hm | hm
-    · simp only [List.mem_singleton] at hm; subst hm; exact hI _ List.mem_cons_self
-    · exact ih (fun it h => hI it (List.mem_cons_of_mem _ h)) y hy m hm
-  case case45 =>
-    rename_i h ih hI r hr m hm
-    simp only [descAll, h, if_true] at hr
-    exact ih (fun it h => hI it (List.mem_cons_of_mem _ h)) r hr m hm
-  case case46 =>
-    rename_i h ih2 ih1 hI r hr m hm
-    simp only [descAll, h, if_false, Bool.false_eq_true] at hr
-    obtain ⟨x, y, hx, hy, rfl⟩ := Res.append_eq_ok hr
-    rcases List.mem_append.mp hm with hm | hm
-    · exact ih2 (hI _ List.mem_cons_self) x hx m hm
-    · exact ih1 (fun it h => hI it (List.mem_cons_of_mem _ h)) y hy m hm
-  case case47 =>
-    rename_i ih2 ih1 hI r hr m hm
-    simp only [descAll] at hr
-    obtain ⟨x, y, hx, hy, rfl⟩ := Res.append_eq_ok hr
-    rcases List.mem_append.mp hm with hm | hm
-    · exact ih2 (hI _ List.mem_cons_self) x hx m hm
-    · exact ih1 (fun it h => hI it (List.mem_cons_of_mem _ h)) y hy m hm
+  -- the remaining cases, told apart by the shape of the goal (not by their number: a new `Ty` constructor renumbers them)
+  all_goals first
+    | (rename_i _ r hr m hm; simp [descAll] at hr; subst hr; cases hm; done)
+    | (rename_i ih hI r hr m hm
+       simp only [descAll] at hr
+       obtain ⟨x, y, hx, hy, rfl⟩ := Res.append_eq_ok hr
+       simp only [Res.ok.injEq] at hx; subst hx
+       rcases List.mem_append.mp hm with hm | hm
+       · simp only [List.mem_singleton] at hm; subst hm; exact hI _ List.mem_cons_self
+       · exact ih (fun it h => hI it (List.mem_cons_of_mem _ h)) y hy m hm
+       done)
+    | (rename_i h ih hI r hr m hm
+       simp only [descAll, h, if_true] at hr
+       exact ih (fun it h => hI it (List.mem_cons_of_mem _ h)) r hr m hm
+       done)
+    | (rename_i h ih2 ih1 hI r hr m hm
+       simp only [descAll, h, if_false, Bool.false_eq_true] at hr
+       obtain ⟨x, y, hx, hy, rfl⟩ := Res.append_eq_ok hr
+       rcases List.mem_append.mp hm with hm | hm
+       · exact ih2 (hI _ List.mem_cons_self) x hx m hm
+       · exact ih1 (fun it h => hI it (List.mem_cons_of_mem _ h)) y hy m hm
+       done)
+    | (rename_i ih2 ih1 hI r hr m hm
+       simp only [descAll] at hr
+       obtain ⟨x, y, hx, hy, rfl⟩ := Res.append_eq_ok hr
+       rcases List.mem_append.mp hm with hm | hm
+       · exact ih2 (hI _ List.mem_cons_self) x hx m hm
+       · exact ih1 (fun it h => hI it (List.mem_cons_of_mem _ h)) y hy m hm
+       done)
 
 /-- for an expectation without Variant / alias, every size or count mismatch `describe` reports is real -/
 theorem describe_sizeReal_top (e a : Ty) (p : Path) (ms : List Mismatch) (hnm : noMerge e = true)
